@@ -29,6 +29,8 @@ type PersistedJob struct {
 
 	Variables map[string]interface{} `json:",omitempty"`
 	User      string                 `json:",omitempty"`
+	// LastError is the message of the error the job ended with (if any)
+	LastError *string `json:",omitempty"`
 
 	Tasks []PersistedTask
 }
